@@ -132,7 +132,10 @@ def norm_value(v):
         f = float(v)
         if math.isinf(f):
             return ("n", f)
-        # 9 significant digits
+        # 9 significant digits; values within 1e-9 of zero are zero (cancellation noise of
+        # sums taken in a different association order)
+        if abs(f) < 1e-9:
+            return ("n", 0.0)
         return ("n", float(f"{f:.9g}"))
     if isinstance(v, (pd.Timestamp, np.datetime64)):
         return ("t", str(pd.Timestamp(v)))
